@@ -12,7 +12,7 @@ for l in open('/verif/properties.jsonl'):
         break
 else:
     sys.exit("no such property")
-extra = (", but spread the four changes over different files where the property involves several (helpers, secondary implementations such as the reflection-based codec, generated-code emitters, client side versus server side, shutdown and error paths), and make at least one change a combination of two refactorings (e.g. extract a helper AND switch the loop form)" if rnd else "")
+extra = (", but spread the four changes over different files where the property involves several (helpers, secondary implementations such as the reflection-based codec, generated-code emitters, client side versus server side, shutdown and error paths), and make at least one change a combination of two refactorings (e.g. extract a helper AND switch the loop form)" if rnd == "3" else (", and for this round favour these kinds of change, wherever they can be done without changing behaviour: table-driven rewrites (a switch or if-chain replaced by a lookup table, or the reverse); an anonymous goroutine or closure turned into a named method or function (parameters instead of captured variables) and the reverse; accessor helpers that take the lock themselves; a loop rewritten with a different exit style (break / early return / flag / index found then used after the loop); error values wrapped or renamed; a struct split in two or two fields merged into a small struct; a function moved to a new file. Spread the four changes over different files, including helpers and secondary implementations (generated-code emitters, the reflection-based codec, the client side), and make each change touch 15-50 lines" if rnd == "4" else ""))
 print(f"""You are helping test a verification effort on an open-source Go project, lugu/qiloop (a Go implementation of SoftBank's QiMessaging RPC protocol: wire format, type-signature codec, IDL parser and proxy/stub generator, client/server bus, service directory).
 
 Your own scratch git worktree of the project is at {wt} (detached HEAD of the project's current commit). Work ONLY inside {wt} and write your results to {out}/. Do NOT read or touch /repo, /verif, /root/.vp or other directories under /tmp/wt, /tmp/mut or /tmp/ben: your work must be independent.
